@@ -5,9 +5,14 @@ go 1.24.0
 require (
 	github.com/berquerant/crd v0.0.0
 	github.com/berquerant/ybase v0.7.0
+	golang.org/x/tools v0.30.0
 	gopkg.in/yaml.v3 v3.0.1
 )
 
-require gitlab.com/gomidi/midi/v2 v2.2.19 // indirect
+require (
+	gitlab.com/gomidi/midi/v2 v2.2.19 // indirect
+	golang.org/x/mod v0.23.0 // indirect
+	golang.org/x/sync v0.11.0 // indirect
+)
 
 replace github.com/berquerant/crd => /repo
